@@ -44,7 +44,9 @@ package ipmi
 //@ ensures [C06.sessinforeq-ok] result == nil && bufValid(b)
 //@ ensures [C06.sessinforeq-len] result == nil ==> len(bufBytes(b)) == len(old(bufBytes(b)))+ite(g.Index == SessionIndexHandle, 2, ite(g.Index == SessionIndexID, 5, 1))
 //@ ensures [C06.sessinforeq-bytes] result == nil ==> bufBytes(b)[0] == uint8(g.Index) && (g.Index == SessionIndexHandle ==> bufBytes(b)[1] == uint8(g.Handle)) && (g.Index == SessionIndexID ==> le32(bufBytes(b), 1) == g.ID)
-//@ ensures [C06.sessinforeq-payload] result == nil ==> forall(qk, 0, len(old(bufBytes(b))), bufBytes(b)[ite(g.Index == SessionIndexHandle, 2, ite(g.Index == SessionIndexID, 5, 1))+qk] == old(bufBytes(b)[qk]))
+//@ ensures [C06.sessinforeq-payload-handle] result == nil && g.Index == SessionIndexHandle ==> forall(qk, 0, len(old(bufBytes(b))), bufBytes(b)[2+qk] == old(bufBytes(b)[qk]))
+//@ ensures [C06.sessinforeq-payload-id~] result == nil && g.Index == SessionIndexID ==> forall(qk, 0, len(old(bufBytes(b))), bufBytes(b)[5+qk] == old(bufBytes(b)[qk]))
+//@ ensures [C06.sessinforeq-payload-other] result == nil && g.Index != SessionIndexHandle && g.Index != SessionIndexID ==> forall(qk, 0, len(old(bufBytes(b))), bufBytes(b)[1+qk] == old(bufBytes(b)[qk]))
 
 // ---- set_session_privilege_level.go (22.18)
 
